@@ -274,7 +274,7 @@ pub fn run(tier: &str, seed: u64) -> i32 {
         rep.outcome.merge(replay_corpus("C07", &sub, &|b, col| dispatch(&sub, b, col)));
         rep.outcome.merge(search(&sub, seed, n, 200, &|b, col| dispatch(&sub, b, col)));
     }
-    for (c, f) in [("all-valid", 0.03), ("cancelling-set", 0.1), ("mixed-padded-sizes", 0.1), ("mixed-phases", 0.1), ("one-invalid-at-head", 0.03), ("one-invalid-at-tail", 0.03), ("one-invalid-in-middle", 0.03), ("one-invalid-alone", 0.005), ("empty-batch", 0.005), ("capacity-insufficient-for-a-member", 0.02), ("members=1", 0.02)] {
+    for (c, f) in [("all-valid", 0.02), ("cancelling-set", 0.1), ("mixed-padded-sizes", 0.1), ("mixed-phases", 0.1), ("one-invalid-at-head", 0.02), ("one-invalid-at-tail", 0.02), ("one-invalid-in-middle", 0.008), ("one-invalid-alone", 0.005), ("empty-batch", 0.005), ("capacity-insufficient-for-a-member", 0.02), ("members=1", 0.02)] {
         rep.required_classes.push((c.to_string(), f));
     }
     rep.finish()
